@@ -91,7 +91,11 @@ def enforce_case(rules, call, target, creds, dflt=None, registered=(), enforce_s
                 args.append(None)
                 args.extend(xargs)
             kwargs.update(xkw)
-    obs = ev.observe((lambda: runner(lambda: fn(*args, **kwargs))) if runner else (lambda: fn(*args, **kwargs)))
+    try:
+        obs = ev.observe((lambda: runner(lambda: fn(*args, **kwargs))) if runner else (lambda: fn(*args, **kwargs)))
+    finally:
+        if enforcer is None and hasattr(e, '_verif_restore'):
+            e._verif_restore()
     obs['log'] = [list(x) for x in ev.PROBE_LOG]
     obs['named'] = 1 if (obs['cls'] == 'PolicyNotAuthorized' and call['by'] == 'name' and
                          obs['msg'] == '%s is disallowed by policy' % call['name']) or \
